@@ -134,9 +134,12 @@ def abel(c, dim, endpoint=1.0):
     _consistency(c, tp, draws, 'snr', sigma, x)
 
 
-def wang(c):
+def wang(c, data='default'):
     ns = c.real('noise_std', pos=True)
-    tp = WangCubic(noise_std=ns)
+    if data == 'default': tp = WangCubic(noise_std=ns); obs = 1
+    elif data == 'zero': tp = WangCubic(noise_std=ns, data=0); obs = 0
+    else: obs = c.real('obs'); tp = WangCubic(noise_std=ns, data=obs)
+    c.eq('data_is_the_supplied_observation', np.asarray(tp.data).reshape(-1)[0] if not isinstance(tp.data, (int, float, core.SReal)) else tp.data, obs)
     x = c.vec('x', 2)
     cubic = 10 * x[1] - 10 * x[0] ** 3 + 5 * x[0] ** 2 + 6 * x[0]
     c.eq('forward_model_is_documented_cubic', tp.model.forward(x), cubic)
@@ -144,7 +147,7 @@ def wang(c):
     c.eq('model_gradient_is_derivative_of_the_cubic', tp.model.gradient(d, x), c.grad_of(lambda v: (10 * v[1] - 10 * v[0] ** 3 + 5 * v[0] ** 2 + 6 * v[0]) * d[0], x), tol=1e-4)
     pi = shims.NP.pi if c.sym else np.pi
     c.eq('posterior_logd_is_stated_gaussian_loglikelihood_plus_logprior', tp.posterior.logd(x),
-         -0.5 * np.log(2 * pi * ns ** 2) - 0.5 * (1 - cubic) ** 2 / ns ** 2 + tp.prior.logd(x), tol=1e-7)
+         -0.5 * np.log(2 * pi * ns ** 2) - 0.5 * (obs - cubic) ** 2 / ns ** 2 + tp.prior.logd(x), tol=1e-7)
     c.holds('components_consistent', tp.likelihood.model is tp.model and tp.posterior.prior is tp.prior)
 
 
@@ -193,6 +196,8 @@ def jobs(tier):
     for which in ('Deconvolution2D', 'Deconvolution1D'):
         J.append(Job(f'{which}:integer_typed_signal_and_phantom', lambda c, w=which: integer_typed_signal(c, w), 'B', [f'{T}:_proj_forward_2D', f'{T}:{which}.__init__'], nnum=2))
     J.append(Job('WangCubic', wang, 'Pbox', [f'{T}:WangCubic.__init__'], rtol=1e-6))
+    for dk in ('zero', 'symbolic'):
+        J.append(Job(f'WangCubic:data={dk}', lambda c, dk=dk: wang(c, dk), 'Pbox', [f'{T}:WangCubic.__init__'], rtol=1e-6))
     J.append(Job('Poisson1D:dim=8', lambda c: pde_problem(c, 'Poisson1D', 8), 'B', [f'{T}:Poisson1D.__init__'], pre=mk('Poisson1D', dim=8), nnum=3))
     J.append(Job('Heat1D:dim=8', lambda c: pde_problem(c, 'Heat1D', 8), 'B', [f'{T}:Heat1D.__init__'], pre=mk('Heat1D', dim=8), nnum=3))
     return J
